@@ -10,7 +10,7 @@ use flussab_aiger::aig::{Symbol, SymbolTarget};
 use flussab_btor2::btor2 as b2;
 use std::fmt::Display;
 use std::fmt::Write as _;
-use std::io::{BufRead, BufReader};
+use std::io::{BufRead, BufReader, Read};
 
 #[derive(Clone, Copy, PartialEq, Eq, Debug, Hash)]
 pub enum PK {
@@ -152,6 +152,9 @@ pub enum Ctor {
     FromBoxed,
     /// from_buf_reader with a BufReader of the given capacity whose buffer was already filled
     FromBufReader(usize),
+    /// Parser::new(LineReader::new(reader)) on a reader (chunk size c) that has already been advanced
+    /// over a p-byte preamble which is not part of the document ("line 1 starts at the current position")
+    AfterPreamble(usize, usize),
 }
 
 impl Ctor {
@@ -161,6 +164,7 @@ impl Ctor {
             Ctor::FromRead => "from_read".into(),
             Ctor::FromBoxed => "from_boxed_dyn_read".into(),
             Ctor::FromBufReader(c) => format!("from_buf_reader(cap={},prefilled)", c),
+            Ctor::AfterPreamble(p, c) => format!("new(reader advanced over a {}-byte preamble, chunk={})", p, c),
         }
     }
 }
@@ -191,6 +195,18 @@ fn line_reader(src: Src, ctor: Ctor) -> Option<LineReader<'static>> {
             let mut r = DeferredReader::from_read(src);
             r.set_chunk_size(c);
             Some(if c % 2 == 1 { LineReader::from(r) } else { LineReader::new(r) })
+        }
+        Ctor::AfterPreamble(p, c) => {
+            // the preamble comes from a Cursor chained in front of the monitored source: Chain never
+            // mixes both in one read and request(p) stops once p bytes are there, so the source has not
+            // been touched when the parser starts
+            let pre: Vec<u8> = (0..p).map(|i| b"%% some tool's banner line\n"[i % 27]).collect();
+            let mut r = DeferredReader::from_read(std::io::Cursor::new(pre).chain(src));
+            r.set_chunk_size(c);
+            let got = r.request(p).len();
+            assert!(got >= p, "harness: preamble not delivered");
+            r.advance(p);
+            Some(if (p + c) % 2 == 1 { LineReader::from(r) } else { LineReader::new(r) })
         }
         _ => None,
     }
@@ -224,7 +240,7 @@ macro_rules! dimacs_runner {
             use flussab_cnf::$module::{Config, Parser};
             let cfg = Config::default().ignore_header(flag);
             let p = match ctor {
-                Ctor::Chunk(_) => Parser::<L>::new(line_reader(src, ctor).unwrap(), cfg),
+                Ctor::Chunk(_) | Ctor::AfterPreamble(..) => Parser::<L>::new(line_reader(src, ctor).unwrap(), cfg),
                 Ctor::FromRead => Parser::<L>::from_read(src, cfg),
                 Ctor::FromBoxed => Parser::<L>::from_boxed_dyn_read(Box::new(src), cfg),
                 Ctor::FromBufReader(c) => Parser::<L>::from_buf_reader(prefilled(src, c), cfg),
@@ -297,7 +313,7 @@ fn run_log<L: flussab_cnf::Dimacs + Display>(
 ) -> Outcome {
     use flussab_cnf::sat_solver_log::{parse_log, Config};
     let mut lr = match ctor {
-        Ctor::Chunk(_) => line_reader(src, ctor).unwrap(),
+        Ctor::Chunk(_) | Ctor::AfterPreamble(..) => line_reader(src, ctor).unwrap(),
         Ctor::FromRead => LineReader::new(DeferredReader::from_read(src)),
         Ctor::FromBoxed => LineReader::new(DeferredReader::from_boxed_dyn_read(Box::new(src))),
         Ctor::FromBufReader(c) => LineReader::new(DeferredReader::from_buf_reader(prefilled(src, c))),
@@ -402,7 +418,7 @@ fn run_aag<L: flussab_aiger::Lit + Display>(
     use flussab_aiger::ascii::{Config, Parser};
     let cfg = Config::default();
     let p = match ctor {
-        Ctor::Chunk(_) => Parser::<L>::new(line_reader(src, ctor).unwrap(), cfg),
+        Ctor::Chunk(_) | Ctor::AfterPreamble(..) => Parser::<L>::new(line_reader(src, ctor).unwrap(), cfg),
         Ctor::FromRead => Parser::<L>::from_read(src, cfg),
         Ctor::FromBoxed => Parser::<L>::from_boxed_dyn_read(Box::new(src), cfg),
         Ctor::FromBufReader(c) => Parser::<L>::from_buf_reader(prefilled(src, c), cfg),
@@ -588,7 +604,7 @@ fn run_aig<L: flussab_aiger::Lit + Display>(
     use flussab_aiger::binary::{Config, Parser};
     let cfg = Config::default();
     let p = match ctor {
-        Ctor::Chunk(_) => Parser::<L>::new(line_reader(src, ctor).unwrap(), cfg),
+        Ctor::Chunk(_) | Ctor::AfterPreamble(..) => Parser::<L>::new(line_reader(src, ctor).unwrap(), cfg),
         Ctor::FromRead => Parser::<L>::from_read(src, cfg),
         Ctor::FromBoxed => Parser::<L>::from_boxed_dyn_read(Box::new(src), cfg),
         Ctor::FromBufReader(c) => Parser::<L>::from_buf_reader(prefilled(src, c), cfg),
@@ -877,7 +893,7 @@ fn run_btor2(ctor: Ctor, src: Src, on_item: &mut dyn FnMut(&str)) -> Outcome {
     use flussab_btor2::{Config, Parser};
     let cfg = Config::default();
     let p = match ctor {
-        Ctor::Chunk(_) => Parser::new(line_reader(src, ctor).unwrap(), cfg),
+        Ctor::Chunk(_) | Ctor::AfterPreamble(..) => Parser::new(line_reader(src, ctor).unwrap(), cfg),
         Ctor::FromRead => Parser::from_read(src, cfg),
         Ctor::FromBoxed => Parser::from_boxed_dyn_read(Box::new(src), cfg),
         Ctor::FromBufReader(c) => Parser::from_buf_reader(prefilled(src, c), cfg),
@@ -994,6 +1010,21 @@ pub fn random_skip(rng: &mut crate::prng::Rng) -> u32 {
         }
     }
     skip
+}
+
+pub const CTOR_CHUNKS: [usize; 12] = [1, 2, 3, 5, 7, 8, 9, 16, 17, 64, 1024, 16384];
+
+/// every public way of putting a parser on top of a byte source, incl. pre-used BufReaders (small and
+/// larger than the reader's default chunk) and readers that were advanced before the parser was built
+pub fn random_ctor(rng: &mut crate::prng::Rng) -> Ctor {
+    match rng.below(10) {
+        0 => Ctor::FromRead,
+        1 => Ctor::FromBoxed,
+        2 => Ctor::FromBufReader(1 + rng.usize(100)),
+        3 => Ctor::FromBufReader(*rng.pick(&[4096usize, 16384, 16385, 20000, 40000, 70000])),
+        4 | 5 => Ctor::AfterPreamble(1 + rng.usize(60), *rng.pick(&CTOR_CHUNKS)),
+        _ => Ctor::Chunk(*rng.pick(&CTOR_CHUNKS)),
+    }
 }
 
 pub fn random_cfg_skip(rng: &mut crate::prng::Rng, pk: PK) -> PCfg {
